@@ -117,7 +117,7 @@ _ALL = {
              'method lets Timeout escape (R2, R3); state matches the constructor (P1); the lookup path must not turn a '
              'vanished (replaced) value file into "key absent" (V1b - violated, known finding).',
              'Equivalence with OrderedDict over histories needs execution and is not decided.'),
-    'C13': P(['S1', 'S2', 'S3', 'S4', 'S5', 'S6', 'S7', 'P3', ('I2', r'^(FanoutCache|no-store)')],
+    'C13': P(['S1', 'S2', 'S3', 'S4', 'S5', 'S6', 'S7', 'S8', 'P3', ('I2', r'^(FanoutCache|no-store)')],
              'routing dataflow per method + purity allow-list of the hash + aggregate iteration shape',
              'Decides that every key-addressed FanoutCache method calls shards[hash(key) % count] with the key it '
              'hashed (S1); Disk.hash is a pure function of the database form of the key (S2) and respects database '
@@ -134,7 +134,7 @@ _ALL = {
              'lets Timeout escape and the sharded failure values are False/None/default (R2); operator forms and Django '
              'writes wait (R3); read-only operations never take the lock (R4); bulk removals carry their count (E4).',
              '"Waits and then succeeds" timing is not decided.'),
-    'C15': P([('L3', r'Lock|RLock|BoundedSemaphore'), 'L4', 'O0', 'O1', 'O2', 'O3',
+    'C15': P([('L3', r'Lock|RLock|BoundedSemaphore'), 'L4', 'O0', 'O1', 'O2', 'O3', ('O5', r'Lock|RLock|BoundedSemaphore'),
               ('L2', r'Cache\.(add|__delitem__)/')],
              'transaction-block containment of each read-modify-write + order abstraction on the counters',
              'Decides that Lock spins on the atomic add and leaves only on success; RLock and BoundedSemaphore read, '
@@ -143,7 +143,7 @@ _ALL = {
              'identity is pid+tid on both sides and release asserts ownership (O1, O2); context-manager forms and '
              'barrier use acquire/release (O3); add/delete underneath are atomic (L2).',
              'Mutual exclusion over all interleavings follows from these only under A2; it is not model-checked here.'),
-    'C16': P(['M1', 'M2', 'M3', 'M4', 'M5', ('B2', r'Cache\.get/'), ('S6', r'memoize')],
+    'C16': P(['M1', 'M2', 'M3', 'M4', 'M5', ('O5', r'memoize_stampede'), ('B2', r'Cache\.get/'), ('S6', r'memoize')],
              'concatenation-grammar reading of the key builder + wrapper dataflow (same key looked up and stored)',
              'Decides that the key builder separates positional from keyword segments by a delimiter no argument value '
              'can equal (M1 - violated: the delimiter is None, known finding); typed/ignore are applied to every kept '
@@ -173,7 +173,7 @@ _ALL = {
              'default marker, None and 0 correctly (D2); incr raises ValueError for a missing key, decr negates (D3); '
              'arguments are passed in the right positions (S6); no data method lets Timeout escape (R2, R3).',
              'The Django contract over call histories (versions x timeouts under a clock) needs execution.'),
-    'C20': P([('L3', r'Averager|throttle'), 'L4', 'O4'],
+    'C20': P([('L3', r'Averager|throttle'), 'L4', 'O4', ('O5', r'Averager|throttle')],
              'transaction-block containment + branch-shape check of the token bucket',
              'Does NOT decide the numeric rate bound. Decides: Averager.add reads and writes inside one retrying block '
              'and pop is one atomic pop (L3); the throttle spends exactly one token inside the block or computes a '
